@@ -8,6 +8,8 @@ mod error;
 mod pca;
 pub mod random_projection;
 pub mod utils;
+#[cfg(all(linfa_verif, not(feature = "blas")))]
+pub mod verif_hooks_c18;
 
 pub use diffusion_map::{DiffusionMap, DiffusionMapParams, DiffusionMapValidParams};
 pub use error::{ReductionError, Result};
